@@ -14,6 +14,13 @@ use crate::util::{compress, decompress};
 use crate::util::{compress_async, decompress_async};
 use crate::Compression;
 
+/// Upper bound for the number of entries memory is reserved for before they have been read.
+const MAX_PREALLOCATED_ENTRIES: usize = 1 << 16;
+
+fn invalid_data(message: &'static str) -> std::io::Error {
+    std::io::Error::new(std::io::ErrorKind::InvalidData, message)
+}
+
 /// A structure representing a directory entry.
 ///
 /// A entry includes information on where to find either a leaf directory or one/multiple tiles.
@@ -41,7 +48,7 @@ pub struct Entry {
 impl Entry {
     /// Returns the range of tile ids this entry is valid for.
     pub const fn tile_id_range(&self) -> Range<u64> {
-        self.tile_id..self.tile_id + self.run_length as u64
+        self.tile_id..self.tile_id.saturating_add(self.run_length as u64)
     }
 
     /// Returns `true` if this entry is for a leaf directory and
@@ -113,14 +120,17 @@ impl Directory {
 
         let num_entries = read_varint([usize], [reader])?;
 
-        let mut entries = Vec::<Entry>::with_capacity(num_entries);
+        // the entry count is untrusted input: do not reserve more than a sane amount up front
+        let mut entries = Vec::<Entry>::with_capacity(num_entries.min(MAX_PREALLOCATED_ENTRIES));
 
         // read tile_id
         let mut last_id = 0u64;
         for _ in 0..num_entries {
             let tmp = read_varint([u64], [reader])?;
 
-            last_id += tmp;
+            last_id = last_id
+                .checked_add(tmp)
+                .ok_or_else(|| invalid_data("Tile id of a directory entry exceeds 64 bits."))?;
             entries.push(Entry {
                 tile_id: last_id,
                 length: 0,
@@ -153,9 +163,14 @@ impl Directory {
             let val = read_varint([u64], [reader])?;
 
             entries[i].offset = if i > 0 && val == 0 {
-                entries[i - 1].offset + u64::from(entries[i - 1].length)
+                entries[i - 1]
+                    .offset
+                    .checked_add(u64::from(entries[i - 1].length))
+                    .ok_or_else(|| invalid_data("Offset of a directory entry exceeds 64 bits."))?
             } else {
-                val - 1
+                val.checked_sub(1).ok_or_else(|| {
+                    invalid_data("The first directory entry must have an explicit offset.")
+                })?
             };
         }
 
